@@ -81,9 +81,11 @@ def wiring(ctx: Ctx, rule="R-C11-WIRING") -> None:
     look = [s for s in ast.walk(rcf.node) if isinstance(s, ast.Subscript) and dotted(s.value) == actors_param]
     ok = len(look) == 1 and dotted(look[0].slice) == f"{kv}.topic"
     ctx.check(ok, rule, rcf, "actor = actors[key.topic]", "the actor registered under the message's topic", f"the consume loop looks the actor up with {[unparse(s) for s in look]}", instance="actor lookup")
-    sp = [c2 for c2 in ast.walk(rcf.node) if isinstance(c2, ast.Call) and isinstance(c2.func, ast.Attribute) and c2.func.attr == "_process_with_event"]
-    ok = len(sp) == 1 and len(sp[0].args) == 4 and [dotted(a) for a in sp[0].args[1:]] == [kv, pv, prv] and look and C.inline_locals(rcf, sp[0].args[0]) is not None \
-        and unparse(C.inline_locals(rcf, sp[0].args[0])) == unparse(look[0])
+    sp = [c2 for _o, c2 in C.flat_walk_bound(ctx, rcf) if isinstance(c2, ast.Call) and isinstance(c2.func, ast.Attribute) and c2.func.attr == "_process_with_event"]
+    pwe = ctx.func(f"{C.RUNNER}._process_with_event")
+    spa = [C.arg(sp[0], i, nm) for i, nm in enumerate([p_.arg for p_ in pwe.params()][1:5])] if len(sp) == 1 else []
+    ok = len(sp) == 1 and len(spa) == 4 and all(a is not None for a in spa) and [dotted(a) for a in spa[1:]] == [kv, pv, prv] and look \
+        and unparse(C.inline_locals(rcf, spa[0], calls="all")) == unparse(look[0])
     ctx.check(ok, rule, rcf, "_process_with_event(actor, key, payload, params)", "that actor processes that message", f"the consume loop spawns {unparse(sp[0]) if sp else '?'}", instance="spawn arguments")
     ctx.check(any(isinstance(t, ast.If) and "self.actors" in unparse(t.test) and "self.topics_by_queue" in unparse(t.test) for t in ast.walk(w.node)), rule, w,
               "worker without actors does not consume", "early exit", "Worker.run consumes although it has no actors", instance="no actors -> no consumers")
